@@ -532,7 +532,7 @@ CHECKS.update({"C01": check_C01})
 def check_C02(ctx, replay=None):
     theorems = ["C02_eq_by_halves", "C02_lt_by_halves", "C02_le_by_halves", "C02_bits_by_halves",
                 "C02_ldhi_reads_high_half", "C02_ldlo_reads_low_half", "C02_condition_lowering",
-                "C02_single_condition_exact", "C02_relations", "C02_source_chain_is_the_model", "C02_source_chain_context",
+                "C02_single_condition_exact", "C02_relations", "C02_relations_partition", "C02_halves_are_faithful", "C02_source_chain_is_the_model", "C02_source_chain_context",
                 "C02_source_load_offsets", "C02_nonvacuous"]
     ctx.ensure_theories()
     gen, log = ctx.regenerate()
